@@ -32,6 +32,21 @@ def dispatch(I, f, args, kw, st, node):
 
 
 # ----------------------------------------------------------------------------- builtins
+F_ROUND = {}
+
+
+def round_fn(nd):
+    """round(x, nd) as an uninterpreted function; the solver front end adds, per application r = round_nd(x):
+    |x - r| <= 0.5*10^-nd, r*10^nd integral, and pairwise monotonicity / congruence (round-half-even is monotone)."""
+    key = "int" if nd is None else int(nd)
+    if key not in F_ROUND:
+        if nd is None:
+            F_ROUND[key] = z3.Function("round_int", z3.RealSort(), z3.IntSort())
+        else:
+            F_ROUND[key] = z3.Function("round_%d" % nd, z3.RealSort(), z3.RealSort())
+    return F_ROUND[key]
+
+
 def v_round(I, x, nd, st, node):
     if is_num(x):
         if V.FLOATMODE:
@@ -39,18 +54,11 @@ def v_round(I, x, nd, st, node):
         fx = Fraction(x)
         return round(fx) if nd is None else round(fx, nd)
     zx = z(x, True)
-    if nd is None:
-        r = I.ctx.fresh("round", "Int")
-        st.pc.append(z3.And(zx - z3.ToReal(r) <= z3.RealVal("1/2"), z3.ToReal(r) - zx <= z3.RealVal("1/2")))
-        return r
-    if not isinstance(nd, int):
+    if nd is not None and not isinstance(nd, int):
         raise ToolLimit("round with symbolic digits")
-    m = I.ctx.fresh("roundm", "Int")
-    scale = 10 ** nd
-    r = z3.ToReal(m) / z3.RealVal(scale)
-    half = z3.RealVal("1/2") / z3.RealVal(scale)
-    st.pc.append(z3.And(zx - r <= half, r - zx <= half))
-    return r
+    if nd is not None and not (0 <= nd <= 6):
+        raise ToolLimit("round digits %r" % (nd,))
+    return round_fn(nd)(zx)
 
 
 def builtin(I, n, args, kw, st, node):
@@ -325,7 +333,10 @@ def modular_call(I, c, args, kw, st, node):
     saved_func = I.ctx.cur_func
     for i, r in enumerate(c.requires):
         rid, text = r if isinstance(r, tuple) else ("requires%d" % i, r)
+        npc = len(cs.pc)
         g = eval_clause(I, text, cs, +1)
+        for extra_fact in cs.pc[npc:]:
+            st.pc.append(extra_fact)
         I.ctx.oblige("call_requires", g, st, node, "%s.%s" % (c.name, rid), tuple(c.props) or (), note="precondition of %s: %s" % (c.name, text))
     # pre-state for old()
     pre = st.copy()
@@ -364,7 +375,10 @@ def modular_call(I, c, args, kw, st, node):
     for eid, text in c.ensures:
         if c.options.get("no_assume_ensures"):
             break
+        npc = len(post.pc)
         h = eval_clause(I, text, post, -1, old=pre)
+        for extra_fact in post.pc[npc:]:       # definitional facts (count witnesses, ghost weights) introduced by the clause
+            st.pc.append(extra_fact)
         if h is False:
             st.pc.append(z3.BoolVal(False))
         elif h is not True:
